@@ -67,7 +67,7 @@ def apply_clauses(src, clauses):
             src = src.replace(c["old"], c["new"])
     toks = lex(src)
     edits = []
-    if all(c["op"] in ("rewrite", "before", "after") for c in clauses):
+    if all(c["op"] in ("rewrite", "before", "after", "tail") for c in clauses):
         fnk, body = -1, -1
     else:
         fnk, body = _fn_parts(src, toks)
@@ -141,6 +141,30 @@ def apply_clauses(src, clauses):
             if op == "after":
                 p += len(a)
             edits.append((p, p, "\n" + c["text"].rstrip() + "\n"))
+        elif op == "tail":
+            # the block-tail expression starting at <anchor>:  E  ->  let NAME = E; <text> NAME
+            a = c["anchor"]
+            if src.count(a) != 1:
+                raise LostAnchor(f"tail anchor occurs {src.count(a)} times: {a[:60]!r}")
+            p = src.find(a)
+            k0 = next((k for k, t in enumerate(toks) if t.start == p), None)
+            if k0 is None or k0 == 0:
+                raise LostAnchor("tail anchor not at a token start")
+            if not (toks[k0 - 1].text in ("{", ";") or toks[k0 - 1].text == "}"):
+                raise LostAnchor("tail anchor is not the start of a block-tail expression")
+            d = toks[k0].depth
+            k = k0
+            while k < len(toks) and not (toks[k].kind == "close" and toks[k].depth == d - 1):
+                if toks[k].kind == "open":
+                    k = toks[k].mate
+                if toks[k].text == ";" and toks[k].depth == d:
+                    raise LostAnchor("tail anchor expression is followed by `;`")
+                k += 1
+            if k >= len(toks):
+                raise LostAnchor("tail: no enclosing block")
+            name = c["name"]
+            edits.append((p, p, f"let {name} = "))
+            edits.append((toks[k].start, toks[k].start, ";\n" + c["text"].rstrip() + f"\n{name}\n"))
         elif op == "body_start":
             if body < 0:
                 raise LostAnchor("body_start on bodiless fn")
